@@ -35,7 +35,7 @@
  "name": "add_link_link_max",
  "props": ["C18"],
  "level": "P",
- "tier": "wip",
+ "tier": "quick",
  "harness": "h_add_link_max",
  "includes": ["misc"],
  "unwind": 6,
